@@ -890,6 +890,22 @@ def run(ctx: Ctx, rep: Report, tier: str) -> None:
     from .c01 import classification_guards
 
     classification_guards(ctx, rep, rid="R03.17")
+    # R03.18 the flags the option cover test reads describe the option text the entry renders: a refused `option.line = ...`
+    # changes neither (text stored before the word test = new text over the old flags; `permit tcp any any syn` is then
+    # reported in the shadow of an entry that renders `... ack time-range WORK`)
+    from .c08 import rejected_leaves_unchanged
+
+    rejected_leaves_unchanged(ctx, rep, rid="R03.18", targets=(("Option.line.setter", ("_line",)),), what="the new option text over the old flag and log lists: the entry renders tokens its cover test does not know", inp="top = Ace('permit tcp any any'); top.option.line = 'ack time-range WORK'  # ValueError; top.line ends in 'ack time-range WORK', top.option.flags == []")
+    # R03.19 / R03.20 the same for the networks (C05 R05.17) and the port sets (C08 R08.13) the cover tests read: a refused
+    # assignment to an address or a port expression of an entry leaves text and sets in agreement
+    from .c05 import rejected_address_changes_nothing
+
+    rejected_address_changes_nothing(ctx, rep, rid="R03.19")
+    rejected_leaves_unchanged(ctx, rep, rid="R03.20")
+    # R03.21 the members an address-group reference is judged by are those of the group it names (C13 R13.9)
+    from .c13 import members_follow_group_name
+
+    members_follow_group_name(ctx, rep, rid="R03.21")
     members_only_for_groups(ctx, rep)
     # R03.12 premise: the flag/log split of the option text (the flag cover test reads .flags)
     from .c01 import option_partition
